@@ -9,15 +9,15 @@ from harness.common import *  # noqa
 from harness.defs import *  # noqa
 
 PROPERTY = "C04"
-MA = {"SMA": (2, 3, 4), "EMA": (2, 3, 4), "RMA": (2, 3, 4), "WMA": (2, 3, 4), "VWMA": (2, 3), "HMA": (4, 5, 9)}
+MA = {"SMA": (2, 3, 4), "EMA": (2, 3, 4), "RMA": (2, 3, 4), "WMA": (2, 3, 4), "VWMA": (2, 3), "HMA": (3, 4, 7, 9)}   # HMA: floor(sqrt(p)) != round(sqrt(p)) for p = 3, 7
 
 
 def obligations(tier):
     obs = []
     for name, periods in MA.items():
-        ps = periods[:2] if tier == "quick" else periods
+        ps = periods[:2] if (tier == "quick" and name != "HMA") else (periods[:3] if tier == "quick" else periods)
         for p in ps:
-            w = p - 1 if name != "HMA" else p - 1 + int(p ** 0.5) - 1
+            w = p - 1 if name != "HMA" else p - 1 + int(p ** 0.5) - 1 + (1 if p in (3, 7) else 0)   # room for an off-by-one window
             extra = 3 if tier == "quick" else 5
             n = w + 1 + extra
             if name == "HMA" and p == 9 :
@@ -55,8 +55,8 @@ def run(ctx, P):
 
 
 META = dict(
-    bounds=dict(quick="periods {2,3} (HMA 4,5), n = warm-up+4 candles, input = close / high / a late-starting symbolic reading missing on the first s in {1,p} candles; EMA smoothing 2 and 3",
-                thorough="periods {2,3,4} (HMA 4,5,9), n = warm-up+6, s in {0,1,2,p,p+1}"),
+    bounds=dict(quick="periods {2,3} (HMA 3,4,7), n = warm-up+4 candles, input = close / high / a late-starting symbolic reading missing on the first s in {1,p} candles; EMA smoothing 2 and 3",
+                thorough="periods {2,3,4} (HMA 3,4,7,9), n = warm-up+6, s in {0,1,2,p,p+1}"),
     stubs=["float arithmetic -> exact real arithmetic", "round(x, 10) -> identity ('up to rounding')", "max/min -> If-terms"],
     assumptions=["window volume > 0 for VWMA (totality is C09's)", "a counterexample must deviate by more than 1e-6*(1+|ref|) and reproduce on the real code"],
     explanation="library readings vs independent definitions as z3 terms over symbolic candles; None pattern exact, values within margin, averages inside the range of their inputs",
